@@ -47,7 +47,7 @@ func NewFloatNode(byteSize int, values ...interface{}) ItemNode {
 	for i, value := range values {
 		switch value := value.(type) {
 		case int:
-			nodeValues = append(nodeValues, float64(value))
+			nodeValues = append(nodeValues, roundInt(byteSize, int64(value)))
 		case int8:
 			nodeValues = append(nodeValues, float64(value))
 		case int16:
@@ -55,9 +55,9 @@ func NewFloatNode(byteSize int, values ...interface{}) ItemNode {
 		case int32:
 			nodeValues = append(nodeValues, float64(value))
 		case int64:
-			nodeValues = append(nodeValues, float64(value))
+			nodeValues = append(nodeValues, roundInt(byteSize, value))
 		case uint:
-			nodeValues = append(nodeValues, float64(value))
+			nodeValues = append(nodeValues, roundUint(byteSize, uint64(value)))
 		case uint8:
 			nodeValues = append(nodeValues, float64(value))
 		case uint16:
@@ -65,7 +65,7 @@ func NewFloatNode(byteSize int, values ...interface{}) ItemNode {
 		case uint32:
 			nodeValues = append(nodeValues, float64(value))
 		case uint64:
-			nodeValues = append(nodeValues, float64(value))
+			nodeValues = append(nodeValues, roundUint(byteSize, value))
 		case float32:
 			nodeValues = append(nodeValues, float64(value))
 		case float64:
@@ -84,6 +84,23 @@ func NewFloatNode(byteSize int, values ...interface{}) ItemNode {
 	node := &FloatNode{byteSize, nodeValues, nodeVariables}
 	node.checkRep()
 	return node
+}
+
+// roundInt returns the integer rounded once to the width of the node;
+// an integer of more than 53 bits rounded to float64 first can end up one float32 off.
+func roundInt(byteSize int, value int64) float64 {
+	if byteSize == 4 {
+		return float64(float32(value))
+	}
+	return float64(value)
+}
+
+// roundUint is roundInt for unsigned integers.
+func roundUint(byteSize int, value uint64) float64 {
+	if byteSize == 4 {
+		return float64(float32(value))
+	}
+	return float64(value)
 }
 
 // Public methods
